@@ -74,4 +74,20 @@ def pidReprArgs (gain limit : List Float) (bScale : Float) : List Float × List 
      let v := bScale * fcopysign l p
      if v.isInf then none else some v)
 
+/-- `f32::copysign` -/
+def fcopysign32 (x s : Float32) : Float32 :=
+  Float32.ofBits ((x.toBits &&& 0x7fffffff) ||| (s.toBits &&& 0x80000000))
+
+/-- f32 -> i32/i64 `as` cast (saturating, NaN -> 0) -/
+def fToInt32 (w : Nat) (v : Float32) : Int := fToInt w v.toFloat
+
+/-- glue of `Pid::<f32>::build::<C, f32>`: all in binary32 -/
+def pidReprArgs32 (gain limit : List Float32) (bScale : Float32) : List Float32 × List (Option Float32) :=
+  let p := gain.getD 2 0
+  (gain.map fun g => bScale * fcopysign32 g p,
+   limit.map fun l =>
+     let l := if l.isNaN then Float32.ofBits 0x7f800000 else l
+     let v := bScale * fcopysign32 l p
+     if v.isInf then none else some v)
+
 end Idsp
